@@ -66,6 +66,9 @@ def key_hash(key):
     return zlib.crc32(repr(key).encode())
 
 
+QUIET, BUSY = 4, 5  # baseline ids 1..3 are hashed mixtures
+
+
 class Policy:
     """Answers every draw from its *context key* (leg, phase, tagger tag, in-state identifiers, kind, ordinal), not from
     its position in the global draw sequence: the order in which the activator hands out event handlers depends on the
@@ -82,7 +85,15 @@ class Policy:
     def __call__(self, kind, args, index):
         alts = alphabet(kind, args)
         key = self.context(kind)
-        base = 0 if self.baseline == 0 else _mix(self.baseline, key_hash(key)) % len(alts)
+        if self.baseline == 0:
+            base = 0
+        elif self.baseline == QUIET:
+            # every energy budget large (98 % quantile): the fewest interaction events, the longest free flights
+            base = 2 if kind == "expovariate" else 0
+        elif self.baseline == BUSY:
+            base = 1 if kind == "expovariate" else len(alts) - 1
+        else:
+            base = _mix(self.baseline, key_hash(key)) % len(alts)
         if key in self.deviations:
             k = self.deviations[key]
             self.hit.add(key)
@@ -906,20 +917,26 @@ class Execution:
         if not p:
             raise HarnessError("C17 monitor needs the sampling parameters of the configuration")
         delta, zero, end = p["interval"], p["zero"], p["end"]
-        if not self.ended:
-            if self.exception is None:
-                self.stats["c17_not_ended"] += 1
-            return
         eor = divmod(end, 1.0)
-        last = self.commits[-1]
-        if not last[0].startswith("FinalTimeEndOfRunEventHandler") and "EndOfRun" not in last[0]:
-            self.V("C17:last-commit", "the run ended but the last committed event is %s at %r" % (last[0], last[2]))
-        elif last[2] != eor:
-            self.V("C17:end-time", "end-of-run committed at %r, configured end time %r = %r" % (last[2], end, eor))
+        past_end = False
         for name, tag, t, _ in self.commits:
             if t is not None and (t[0], t[1]) > eor:
-                self.V("C17:after-end", "%s committed at %r after the end of the run %r" % (name, t, eor))
+                # also for runs that were cut at the horizon or never ended: nothing may be committed after the end time
+                self.V("C17:after-end", "%s committed at %r after the end of the run %r%s"
+                       % (name, t, eor, "" if self.ended else " (the run did not end at its end time)"))
+                past_end = True
                 break
+        if not self.ended:
+            if self.exception is None and not past_end:
+                self.stats["c17_not_ended"] += 1
+            if self.exception is not None:
+                return
+        else:
+            last = self.commits[-1]
+            if not last[0].startswith("FinalTimeEndOfRunEventHandler") and "EndOfRun" not in last[0]:
+                self.V("C17:last-commit", "the run ended but the last committed event is %s at %r" % (last[0], last[2]))
+            elif last[2] != eor:
+                self.V("C17:end-time", "end-of-run committed at %r, configured end time %r = %r" % (last[2], end, eor))
         samples = [w for w in self.writes if w[1].startswith(("FixedIntervalSamplingEventHandler",))
                    or "SamplingEventHandler" in w[1]]
         fd = Fr(delta)
@@ -936,6 +953,9 @@ class Execution:
                         self.V("C17:not-time-sliced", "sample %d at %r: moving unit %r is written with time stamp %r "
                                "(position %r is not the position at the sample time)" % (k, t, ident, ts, pos))
                         break
+        if not self.ended:
+            self.stats["c17_samples"] += len(samples)
+            return
         # number of samples: nominal times strictly before the end (ties within rounding may go either way)
         fend = Fr(end)
         lo = hi = 0
